@@ -31,7 +31,8 @@ NOISE_TEXTS = [
 NOISE_OPTS = [
     {'reindent': True}, {'strip_comments': True, 'strip_whitespace': True, 'use_space_around_operators': True},
     {'keyword_case': 'upper', 'identifier_case': 'lower'}, {'reindent_aligned': True}, {'output_format': 'python'},
-    {'truncate_strings': 3}, {'reindent': True, 'comma_first': True, 'indent_width': 4},
+    {'truncate_strings': 3}, {'reindent': True, 'comma_first': True, 'indent_width': 4}, {'reindent': True, 'indent_tabs': True},
+    {'reindent': True, 'indent_width': 1, 'wrap_after': 10}, {'reindent_aligned': True, 'indent_tabs': True},
 ]
 
 STATE = {'installed': False, 'history': collections.deque(maxlen=16), 'last_form': 'str', 'rng': None, 'busy': False, 'force_form': None, 'calls': 0,
